@@ -172,9 +172,14 @@ def o_c02_bin(run):
 
 def o_c02(run):
     out = []
+    sequential = run.kv.get('conc') != '1'
     for g, pd, praw, st in iterate(run):
         cur = dict(pd)
+        touched = set()
         for r in g.ops:
+            c0 = r.client
+            first_of_client = c0 not in touched
+            touched.add(c0)
             if r.op != 'av':
                 continue
             c = r.client
@@ -182,6 +187,11 @@ def o_c02(run):
             if d is None:
                 continue
             latest = d['latest']
+            # from the implementation's ANSWERS alone (no dump of its own latest pointer is believed): the version most
+            # recently accepted for this client is its latest - whatever other clients did in between (seeded C02-6: an
+            # UPDATE without its WHERE clause moved every client's pointer, and dump and answers stayed consistent)
+            if sequential and first_of_client and st.acc[c] and latest != st.acc[c][-1][0]:
+                out.append(fail('C02: the accepted version becomes the latest, and stays it until this client has another version accepted', r, f'the last version accepted for client {c} is {st.acc[c][-1][0]} but its latest is now {latest}'))
             o = r.i_out
             if o[0] in ('nsc',):
                 if latest != 'none' or run.entry == 'http':
